@@ -238,21 +238,13 @@ func (r *Report) Finish(evidencePath string, known []Known, extra map[string]int
 			"rule": id, "statement": r.Rules[id], "floor": r.Floors[id], "instances": perRule[id],
 		})
 	}
-	// samples: a few obligations of each rule, written out
+	// every obligation, written out (rule, construct key, status, position, statement)
 	samples := []interface{}{}
-	perRuleSamples := map[string]int{}
 	for _, o := range r.Obligations {
 		if o.Status == Noted {
 			continue
 		}
-		if perRuleSamples[o.Rule] >= 3 && o.Status == Discharged {
-			continue
-		}
-		perRuleSamples[o.Rule]++
 		samples = append(samples, o)
-		if len(samples) >= 120 {
-			break
-		}
 	}
 	notes := []interface{}{}
 	for _, o := range r.Obligations {
@@ -266,7 +258,7 @@ func (r *Report) Finish(evidencePath string, known []Known, extra map[string]int
 		"discharged":          discharged,
 		"known_findings":      len(knownHits),
 		"rules":               rules,
-		"samples":             samples,
+		"obligation_list":     samples,
 		"analysed":            r.Analysed,
 		"notes":               notes,
 		"exhaustive":          true,
